@@ -173,7 +173,23 @@ structure ChunkData where
   values : List Cell          -- non-null values in order
   cells : List Cell           -- flat columns: values scattered over the definition levels
   nulls : Nat
+  loose : Nat := 0            -- hybrid streams (levels, dictionary indices, RLE booleans) with a run whose announced payload is not all there
   deriving Repr
+
+/-- 1 if the v1 level block is not tightly framed (see `hybridTight`) -/
+def levelsLooseV1 (maxLevel n : Nat) (bs : List Nat) : Nat :=
+  if maxLevel = 0 then 0 else
+  if hybridTight (widthFor maxLevel) n ((bs.drop 4).take (leNat (bs.take 4))) then 0 else 1
+
+/-- 1 if the hybrid stream inside a data page's value section is not tightly framed -/
+def valuesLoose (ptype enc n : Nat) (bs : List Nat) : Nat :=
+  if enc = ENC_PLAIN_DICTIONARY ∨ enc = ENC_RLE_DICTIONARY then
+    match bs with
+    | [] => 0
+    | w :: rest => if hybridTight w n rest then 0 else 1
+  else if enc = ENC_RLE ∧ ptype = PT_BOOLEAN then
+    if hybridTight 1 n ((bs.drop 4).take (leNat (bs.take 4))) then 0 else 1
+  else 0
 
 /-- payload of a page: the caller-supplied decompressed bytes if any, else the raw bytes -/
 def payloadOf (file : Array Nat) (payloads : List (Nat × List Nat)) (p : PageInfo) : List Nat :=
@@ -197,6 +213,7 @@ def decodeChunk (file : Array Nat) (payloads : List (Nat × List Nat)) (leaf : L
   let mut reps : List Nat := []
   let mut vals : List Cell := []
   let mut count := 0
+  let mut loose := 0
   for p in pages do
     let body := payloadOf file payloads p
     if body.length ≠ p.uncompSize then throw s!"page at {p.hdrOff}: uncompressed_page_size {p.uncompSize} but payload has {body.length} bytes"
@@ -211,6 +228,8 @@ def decodeChunk (file : Array Nat) (payloads : List (Nat × List Nat)) (leaf : L
       let nn := (dl.filter (· == leaf.maxDef)).length
       let some vs := decodeValues leaf.ptype leaf.typeLength p.encoding dict nn r2 | throw s!"page at {p.hdrOff}: values (encoding {p.encoding}) do not decode"
       defs := defs ++ dl; reps := reps ++ rl; vals := vals ++ vs; count := count + p.numValues
+      loose := loose + levelsLooseV1 leaf.maxRep p.numValues body + levelsLooseV1 leaf.maxDef p.numValues r1
+        + valuesLoose leaf.ptype p.encoding nn r2
     else
       let rb := body.take p.repLen
       let db := (body.drop p.repLen).take p.defLen
@@ -226,6 +245,9 @@ def decodeChunk (file : Array Nat) (payloads : List (Nat × List Nat)) (leaf : L
       if p.numNulls ≠ some (p.numValues - nn) then throw s!"page at {p.hdrOff}: num_nulls {p.numNulls} but {p.numValues - nn} levels are below the maximum"
       let some vs := decodeValues leaf.ptype leaf.typeLength p.encoding dict nn vb | throw s!"page at {p.hdrOff}: values (encoding {p.encoding}) do not decode"
       defs := defs ++ dl; reps := reps ++ rl; vals := vals ++ vs; count := count + p.numValues
+      loose := loose + (if leaf.maxRep = 0 ∨ hybridTight (widthFor leaf.maxRep) p.numValues rb then 0 else 1)
+        + (if leaf.maxDef = 0 ∨ hybridTight (widthFor leaf.maxDef) p.numValues db then 0 else 1)
+        + valuesLoose leaf.ptype p.encoding nn vb
   if count ≠ cm.numValues then throw s!"num_values {cm.numValues} but pages hold {count}"
   if leaf.maxRep = 0 ∧ count ≠ rgRows then throw s!"pages hold {count} values but the row group has {rgRows} rows"
   if leaf.maxRep > 0 ∧ (reps.filter (· == 0)).length ≠ rgRows then throw s!"repetition levels start {(reps.filter (· == 0)).length} records but the row group has {rgRows} rows"
@@ -233,7 +255,7 @@ def decodeChunk (file : Array Nat) (payloads : List (Nat × List Nat)) (leaf : L
   match cm.nullCount with
   | some k => if leaf.maxRep = 0 ∧ k ≠ nulls then throw s!"statistics null_count {k} but {nulls} cells are null"
   | none => pure ()
-  pure { path := leaf.path, defs, reps, values := vals, cells := scatter leaf.maxDef defs vals, nulls }
+  pure { path := leaf.path, defs, reps, values := vals, cells := scatter leaf.maxDef defs vals, nulls, loose }
 
 structure RowGroupData where
   numRows : Nat
